@@ -66,6 +66,11 @@ func c14Policy(ch *Chooser) (*retry.RetryPolicyConfiguration, string) {
 	return p, kind
 }
 
+// attemptErr marks the error returned by one particular attempt.
+type attemptErr struct{ i int }
+
+func (a attemptErr) Error() string { return fmt.Sprintf("attempt %d", a.i) }
+
 func runC14Retry(rc *RunCtx) {
 	ch := rc.Ch
 	res := rc.Res
@@ -73,13 +78,15 @@ func runC14Retry(rc *RunCtx) {
 	useOnError := ch.Intn("api", 2) == 1
 	n := 1 + ch.Intn("scriptlen", 10)
 	script := make([]int, n) // 0 success, 1 retriable, 2 fatal
+	inner := make([]bool, n) // the retriable error of this attempt is a nested operation's own deadline error
 	for i := range script {
 		script[i] = ch.Pick("outcome", 2, 6, 1)
+		inner[i] = ch.Pick("innerdeadline", 4, 1) == 1
 	}
 	ctxMode := ch.Pick("ctx", 5, 1, 2, 2, 1) // 0 alive, 1 cancelled before, 2 cancelled inside attempt j, 3 cancelled 1ns into the wait after attempt j, 4 deadline
 	j := ch.Intn("j", 8)
 	deadline := time.Duration(1+ch.Intn("deadline", 5000)) * time.Millisecond
-	res.Config = fmt.Sprintf("part=retry api=%v policy={enabled=%v attempts=%d min=%v max=%v %s} script=%v ctx=%d j=%d deadline=%v", useOnError, p.Enabled, p.RetryMax, p.RetryWaitMin, p.RetryWaitMax, kind, script, ctxMode, j, deadline)
+	res.Config = fmt.Sprintf("part=retry api=%v policy={enabled=%v attempts=%d min=%v max=%v %s} script=%v innerDeadlineErrors=%v ctx=%d j=%d deadline=%v", useOnError, p.Enabled, p.RetryMax, p.RetryWaitMin, p.RetryWaitMax, kind, script, inner, ctxMode, j, deadline)
 	type inv struct {
 		at      time.Duration
 		ctxDone bool
@@ -112,13 +119,17 @@ func runC14Retry(rc *RunCtx) {
 			if ctxMode == 3 && i == j {
 				time.AfterFunc(1, cancel)
 			}
+			// every attempt's error is distinguishable: only the last one may come back
 			switch out {
 			case 0:
 				return nil
 			case 1:
-				return errRetriable
+				if i < len(inner) && inner[i] {
+					return fmt.Errorf("%w: nested operation: %w (%w)", errRetriable, context.DeadlineExceeded, attemptErr{i})
+				}
+				return fmt.Errorf("%w (%w)", errRetriable, attemptErr{i})
 			}
-			return errFatal
+			return fmt.Errorf("%w (%w)", errFatal, attemptErr{i})
 		}
 		if useOnError {
 			runErr = retry.RetryOnError(ctx, logr.Discard(), p, fn, "retrying", errRetriable)
@@ -226,6 +237,21 @@ func runC14Retry(rc *RunCtx) {
 			}
 		default:
 			viol("stopped-early", fmt.Sprintf("stopped after %d of %d attempts although the last error was retriable and the context alive", len(invs), p.RetryMax))
+		}
+	}
+	// "otherwise the last error": nothing of an earlier attempt's error may be in the result, and a context kind only when
+	// the context ended or the last error itself carries one
+	if runErr != nil && len(invs) > 0 {
+		li := len(invs) - 1
+		for i := 0; i < li; i++ {
+			if errors.Is(runErr, attemptErr{i}) {
+				viol("error-of-earlier-attempt-returned", fmt.Sprintf("the returned error carries the error of attempt %d; the last attempt was %d", i, li))
+				break
+			}
+		}
+		lastInner := lastOut == 1 && li < len(inner) && inner[li]
+		if !ctxEnded && !lastInner && lastOut != 0 && commonerrors.Any(runErr, commonerrors.ErrCancelled, commonerrors.ErrTimeout) {
+			viol("spurious-context-kind", "the context is alive and the last attempt's error carries no context kind, yet the result is of the cancelled / timeout kind")
 		}
 	}
 	// gaps are never negative and respect the minimum
@@ -478,10 +504,16 @@ func runC14Apply(rc *RunCtx) {
 		ra = fmt.Sprint(v)
 		wantHint = time.Duration(v) * time.Second
 	case 2:
-		// around 2^63 / 1e9 and up to 2^63-1: not representable as a Duration
-		base := []int64{math.MaxInt64 / int64(time.Second), math.MaxInt64/int64(time.Second) + 1, math.MaxInt64, math.MaxInt64 - 1, 1 << 40, 1 << 62}[ch.Intn("huge", 6)]
+		// around 2^63 / 1e9 and up to 2^63-1: mostly not representable as a Duration
+		limit := int64(math.MaxInt64) / int64(time.Second)
+		base := []int64{limit, limit + 1, math.MaxInt64, math.MaxInt64 - 1, 1 << 40, 1 << 62, 1 << 55, 18446744074, 2 * limit,
+			limit + 1 + int64(ch.Intn("hugeoff", 1<<30)), (int64(1) << uint(34+ch.Intn("hugepow", 29))) + int64(ch.Intn("hugelow", 1000))}[ch.Intn("huge", 11)]
 		ra = fmt.Sprint(base)
-		wantHint = -2 // "some non-negative value"
+		if base <= limit {
+			wantHint = time.Duration(base) * time.Second
+		} else {
+			wantHint = -2 // not representable: must not be shorter than the longest representable hint
+		}
 	case 3:
 		ra = fmt.Sprint(-int64(1 + ch.Intn("neg", 1000)))
 		wantHint = 0
@@ -512,6 +544,9 @@ func runC14Apply(rc *RunCtx) {
 	if hinted {
 		if wantHint >= 0 && wait != wantHint {
 			viol("retry-after-not-honoured|"+kind, fmt.Sprintf("Retry-After asks for %v", wantHint))
+		}
+		if floor := time.Duration(math.MaxInt64/int64(time.Second)) * time.Second; wantHint == -2 && wait < floor {
+			viol("retry-after-huge-value-shortened|"+kind, fmt.Sprintf("the server asks for %s seconds, more than any representable duration, but the wait is shorter than the longest representable hint (%v)", ra, floor))
 		}
 		return
 	}
